@@ -29,7 +29,7 @@ Proof. vm_compute. repeat split; reflexivity. Qed.
    i-th header element gets in pass 2 (id="s<i>", Proofs/FragH.macro_header_pass2) - so every table-of-contents link
    has exactly one target and different entries have different targets *)
 Require FragH TocStr.
-Theorem C05_toc_entries_refer_to_their_header_partial : forall fuel wd main bs, Forall FragH.in_fragH bs ->
-  let s := snd (compile (S fuel) (R "xhtml") 0 wd main bs) in
+Theorem C05_toc_entries_refer_to_their_header_partial : forall fuel md wd main bs, md = 0%nat \/ md = 1%nat -> Forall FragH.in_fragH bs ->
+  let s := snd (compile (S fuel) (R "xhtml") md wd main bs) in
   Forall TocStr.entry_ok (lox_toc s) /\ FragH.refs_ok (lox_toc s).
-Proof. intros fuel wd main bs H. exact (proj2 (proj2 (proj2 (FragH.C02_headers_balanced fuel wd main bs H)))). Qed.
+Proof. intros fuel md wd main bs Hm H. exact (proj2 (proj2 (proj2 (FragH.C02_headers_balanced_modes fuel md wd main bs Hm H)))). Qed.
